@@ -114,6 +114,8 @@ func (p *Prog) sendNotifEventArgs(st *State, desc string, args []*Expr) string {
 func checkC09(c *Check) {
 	p := c.P
 	c.holdTimerRestartDiscipline("C09.5 legal-progress-does-not-block")
+	c.readerFraming("C09.1 framing")
+	c.notificationEncode("C09.2 notification-encode")
 	rule := "C09.1 producer-consumer-types"
 	prod := c.messageProducers(rule)
 	var prodTypes []string
